@@ -321,3 +321,38 @@ def validate(ctx, names, n_per, rng, label="translator-validation"):
     ctx.notes.append(f"{label}: {n_cmp} calls of {len(per)} translated kernels compared with the Python source "
                      f"({n_skip} skipped: CPython ZeroDivisionError)")
     return n_cmp
+
+
+def validate_layout(ctx, n, rng, label="translator-validation(layouts)"):
+    """`clip` and `rdist` of umap/layouts.py as translated (Generated/LayoutSrc.lean at Float) against the Python source"""
+    import umap.layouts as L
+    ok, log = build()
+    if not ok:
+        ctx.notes.append("srcdrv did not build (translation validation unavailable): " + log[-600:])
+        ctx.proof["broken"].append("translator output does not compile at Float (srcdrv): see notes")
+        return 0
+    cases, lines = [], []
+    for _ in range(n):
+        v = float(rng.choice([4.0, -4.0, 0.0, rng.normal() * 5]))
+        cases.append(("clip", L.clip, (v,)))
+        lines.append(" ".join(["clip", "1", "s", f2b(v)]))
+        d = int(rng.integers(1, 5))
+        x, y = rng.normal(size=d), rng.normal(size=d)
+        cases.append(("rdist", L.rdist, (x, y)))
+        lines.append(" ".join(["rdist", "2"] + tok_v(x) + tok_v(y)))
+    p = subprocess.run([SRCDRV], input=("\n".join(lines) + "\n").encode(), stdout=subprocess.PIPE, stderr=subprocess.PIPE)
+    if p.returncode != 0:
+        raise InfraError("srcdrv failed: " + p.stderr.decode()[-1000:])
+    out = p.stdout.decode().split("\n")[:len(lines)]
+    k = 0
+    for (fname, f, args), ans in zip(cases, out):
+        want = py_call(f, args)
+        if ans in ("bad-op", "none", ""):
+            ctx.mismatch(label, {"srcdrv": ans, "python": want}, case_of(fname, args))
+            continue
+        got = [b2f(t) for t in ans.split()]
+        k += 1
+        if len(got) != 1 or abs(got[0] - want[0]) > 1e-12 * max(1.0, abs(want[0])):
+            ctx.mismatch(label, {"srcdrv": got, "python": want}, case_of(fname, args))
+    ctx.notes.append(f"{label}: {k} calls of clip / rdist compared with the Python source")
+    return k
